@@ -14,7 +14,7 @@ CHECK = {
                  "quick": {"cases": 4000, "shards": 2, "soft_s": 40},
                  "thorough": {"cases": 200000, "shards": 16, "soft_s": 330}}],
     "floors": {"three_tensors_unaligned": 0.15, "nondefault_alignment": 0.3},
-    "rule": "rapid-generated (KV map over every value type WriteGGUF accepts incl. empty/large strings and arrays "
+    "rule": "rapid-generated (alignment absent or one of 1 2 4 8 16 32 64 256 24 40 96 12 7 100; every written file is decoded with Decode(-1) and again under collect limits 0 (= 1024), 5 and the sizes of its own arrays: an array of at most that many elements must decode to the same values, a longer one to its size only; KV map over every value type WriteGGUF accepts incl. empty/large strings and arrays "
             "around the 1024 collect limit, alignment in {absent,1..256}, 0-40 uniquely named tensors of every kind "
             "with 0-4 dims); oracle = Decode(WriteGGUF(x)) equals x both ways, bytes at decoded offsets, aligned "
             "offsets, end offset = file length. Non-trivial = at least 3 tensors with at least 2 tensors of "
